@@ -678,3 +678,37 @@ func containsDigitName(p string) bool {
 	}
 	return false
 }
+
+// ---------------------------------------------------------------- C19
+
+func init() {
+	register(&propSpec{
+		ID: "C19",
+		Build: func(tier string, seed int) []Unit {
+			var us []Unit
+			add := func(n int, dom string) {
+				us = append(us, Unit{ID: fmt.Sprintf("C19/roundtrip/%s/n%d", dom, n), Harness: "escape", Domain: dom, PathBudget: 400000,
+					Params: map[string]string{"n": itoa(n), "pattern": "roundtrip", "key_extra": dom}})
+			}
+			add(0, "full")
+			add(1, "full")
+			add(2, "quick")
+			opts := []int{0, patterns.OptX, patterns.OptRE2, patterns.OptE}
+			cdom := "quick"
+			if tier == "thorough" {
+				add(2, "full")
+				add(3, "case")
+				opts = []int{0, patterns.OptX, patterns.OptM | patterns.OptS, patterns.OptN, patterns.OptRE2, patterns.OptE, patterns.OptX | patterns.OptN | patterns.OptM}
+			}
+			for _, o := range opts {
+				for k := 0; k <= 2; k++ {
+					us = append(us, Unit{ID: fmt.Sprintf("C19/compile/o%d/n1/k%d", o, k), Harness: "escapecompile", Domain: cdom, PathBudget: 60000,
+						Params: map[string]string{"n": "1", "k": itoa(k), "options": itoa(o), "pattern": "compile"}})
+				}
+			}
+			return us
+		},
+		Rule:      "s = string of n symbolic Unicode scalar values over all of Unicode (surrogates excluded); every feasible path of Escape and Unescape (incl. strconv.FormatInt and the parser's escape scanner) is explored and Unescape(Escape(s)) == s with nil error is asserted; compile leg: n = 1, the pattern ^(?:Escape(s))$ goes through the real parser/reducer/writer with the symbolic literal and MatchRunes(u) <=> u == s is asserted for a second symbolic text u of k <= 2 runes under 6 option sets.",
+		Witnesses: []string{"escaped", "unchanged", "end"},
+	})
+}
